@@ -1,3 +1,585 @@
 package main
 
-func checkCmd(args []string) int { return 2 }
+import (
+	"encoding/json"
+	"flag"
+	"fmt"
+	"os"
+	"path/filepath"
+	"sort"
+	"strconv"
+	"strings"
+	"time"
+
+	"golang.org/x/tools/go/ssa"
+)
+
+// ---- which obligations decide which property ------------------------------------------------
+
+func obProps(o *Oblig) []string {
+	switch o.Family {
+	case "SAFE", "TERM":
+		return append([]string{"C01"}, o.tags...)
+	case "FRAME":
+		return []string{"C04", "C05"}
+	case "COPY":
+		return []string{"C17"}
+	case "NONDET":
+		return append([]string{"C03"}, o.tags...)
+	case "PRE", "POST", "LOOP", "INV", "LEMMA":
+		return o.tags
+	}
+	return nil
+}
+
+func hasProp(o *Oblig, p string) bool {
+	for _, x := range obProps(o) {
+		if x == p {
+			return true
+		}
+	}
+	return false
+}
+
+type Baseline struct {
+	Property string   `json:"property"`
+	Commit   string   `json:"repo_commit"`
+	Claimed  []string `json:"claimed"`  // obligations that discharge on the pinned tree
+	Unproved []string `json:"unproved"` // obligations that do not (limits of the contracts, or known findings)
+	Functions []string `json:"functions"`
+}
+
+type Finding struct {
+	Property    string   `json:"property"`
+	ID          string   `json:"id"`
+	Obligations []string `json:"obligations"`
+	What        string   `json:"what"`
+	Input       string   `json:"input"`
+}
+
+type KnownFindings struct {
+	Findings []Finding `json:"findings"`
+	Fixed    []struct {
+		Property string `json:"property"`
+		Commit   string `json:"commit"`
+		What     string `json:"what"`
+	} `json:"fixed"`
+}
+
+type obRec struct {
+	Name    string `json:"name"`
+	Verdict string `json:"verdict"`
+	Solver  string `json:"solver"`
+	Ms      int    `json:"ms"`
+	SmtBytes int   `json:"smt_bytes,omitempty"`
+}
+
+func readJSON(path string, v interface{}) error {
+	b, err := os.ReadFile(path)
+	if err != nil {
+		return err
+	}
+	return json.Unmarshal(b, v)
+}
+
+func verifRoot() string {
+	if r := os.Getenv("VERIF_ROOT"); r != "" {
+		return r
+	}
+	return "/verif"
+}
+
+func checkCmd(args []string) int {
+	fs := flag.NewFlagSet("check", flag.ExitOnError)
+	prop := fs.String("p", "", "property id")
+	tier := fs.String("tier", "quick", "quick|thorough")
+	repo := fs.String("repo", "/repo", "")
+	writeBase := fs.Bool("write-baseline", false, "record the claimed set from this run (pinned tree only)")
+	noEvidence := fs.Bool("no-evidence", false, "")
+	evidenceOut := fs.String("evidence", "", "evidence path (default /verif/evidence/<id>.json)")
+	fs.Parse(args)
+	if *prop == "" {
+		fmt.Fprintln(os.Stderr, "check: -p required")
+		return 2
+	}
+	root := verifRoot()
+	seed, _ := strconv.Atoi(os.Getenv("VERIF_SEED"))
+	if t := os.Getenv("VERIF_TIER"); t == "quick" || t == "thorough" {
+		*tier = t
+	}
+	t0 := time.Now()
+	w, err := loadWorld(*repo)
+	if err != nil {
+		// the tree does not build: nothing can be decided (never a violation)
+		fmt.Printf("UNDECIDED property=%s reason=load-failed %v\n", *prop, err)
+		writeEvidenceFailure(root, *prop, *tier, seed, err.Error(), time.Since(t0).Seconds(), *evidenceOut)
+		return 0
+	}
+	spec := loadSpecs(w, filepath.Join(root, "trusted"))
+	opt := solveOpts{quickMs: 4000, retryMs: 8000, portfolio: true}
+	if *tier == "thorough" {
+		opt = solveOpts{quickMs: 20000, retryMs: 60000, portfolio: true}
+	}
+	res := verifyAll(w, spec, w.funcs, opt, 16, nil)
+	extra := extraObligations(w, spec, *prop, opt)
+	run := &checkRun{prop: *prop, tier: *tier, seed: seed, root: root, w: w, spec: spec, res: res, extra: extra, t0: t0}
+	if *writeBase {
+		return run.writeBaseline()
+	}
+	return run.decide(*noEvidence, *evidenceOut)
+}
+
+type checkRun struct {
+	prop, tier, root string
+	seed  int
+	w     *World
+	spec  *Specs
+	res   []*funcResult
+	extra []*extraResult
+	t0    time.Time
+}
+
+// extraResult: obligations that do not come from one function's body (COPY field tables, NONDET sites, lemmas).
+type extraResult struct {
+	obs []*Oblig
+	enc *Enc
+	notes []string
+}
+
+func (r *checkRun) collect() (obs []*Oblig, encOf map[*Oblig]*Enc, fnSeen map[string]bool) {
+	encOf = map[*Oblig]*Enc{}
+	fnSeen = map[string]bool{}
+	for _, fr := range r.res {
+		fnSeen[shortName(fr.fn)] = true
+		if fr.enc == nil || fr.panicked != "" {
+			continue
+		}
+		for _, o := range fr.enc.obs {
+			if o.Name == "" || !hasProp(o, r.prop) {
+				continue
+			}
+			obs = append(obs, o)
+			encOf[o] = fr.enc
+		}
+	}
+	for _, x := range r.extra {
+		for _, o := range x.obs {
+			if hasProp(o, r.prop) {
+				obs = append(obs, o)
+				encOf[o] = x.enc
+			}
+		}
+	}
+	return
+}
+
+func repoCommit(repo string) string {
+	b, err := os.ReadFile(filepath.Join(repo, ".git", "HEAD"))
+	if err != nil {
+		return ""
+	}
+	s := strings.TrimSpace(string(b))
+	if strings.HasPrefix(s, "ref: ") {
+		if c, err := os.ReadFile(filepath.Join(repo, ".git", strings.TrimPrefix(s, "ref: "))); err == nil {
+			return strings.TrimSpace(string(c))
+		}
+	}
+	return s
+}
+
+func (r *checkRun) writeBaseline() int {
+	obs, _, fnSeen := r.collect()
+	b := Baseline{Property: r.prop, Commit: repoCommit(r.w.repo)}
+	for _, o := range obs {
+		if o.Verdict == "unsat" {
+			b.Claimed = append(b.Claimed, o.Name)
+		} else if o.Verdict != "dropped" {
+			b.Unproved = append(b.Unproved, o.Name)
+		}
+	}
+	for f := range fnSeen {
+		b.Functions = append(b.Functions, f)
+	}
+	sort.Strings(b.Claimed)
+	sort.Strings(b.Unproved)
+	sort.Strings(b.Functions)
+	os.MkdirAll(filepath.Join(r.root, "baseline"), 0o755)
+	out, _ := json.MarshalIndent(b, "", " ")
+	if err := os.WriteFile(filepath.Join(r.root, "baseline", r.prop+".json"), out, 0o644); err != nil {
+		fmt.Fprintln(os.Stderr, err)
+		return 2
+	}
+	fmt.Printf("baseline %s: claimed=%d unproved=%d\n", r.prop, len(b.Claimed), len(b.Unproved))
+	return 0
+}
+
+// fnOfName: "<fn>#FAMILY:..." -> fn
+func fnOfName(n string) string {
+	if i := strings.Index(n, "#"); i >= 0 {
+		return n[:i]
+	}
+	return n
+}
+
+// famKind: "<fn>#FAMILY:kind:text#k" -> "FAMILY:kind"
+func famKind(n string) string {
+	i := strings.Index(n, "#")
+	if i < 0 {
+		return ""
+	}
+	rest := n[i+1:]
+	p := strings.SplitN(rest, ":", 3)
+	if len(p) >= 2 {
+		if p[1] == "inl" && len(p) == 3 {
+			q := strings.SplitN(p[2], ":", 2)
+			return p[0] + ":inl:" + q[0]
+		}
+		return p[0] + ":" + p[1]
+	}
+	return rest
+}
+
+type violation struct {
+	ob     *Oblig
+	reason string
+	model  string
+	replay string
+	confirmed bool
+}
+
+func (r *checkRun) decide(noEvidence bool, evidenceOut string) int {
+	obs, encOf, fnSeen := r.collect()
+	var base Baseline
+	haveBase := readJSON(filepath.Join(r.root, "baseline", r.prop+".json"), &base) == nil
+	var kf KnownFindings
+	readJSON(filepath.Join(r.root, "KNOWN_FINDINGS.json"), &kf)
+	known := map[string]*Finding{}
+	for i := range kf.Findings {
+		f := &kf.Findings[i]
+		if f.Property != r.prop {
+			continue
+		}
+		for _, o := range f.Obligations {
+			known[o] = f
+		}
+	}
+	claimed := map[string]bool{}
+	for _, n := range base.Claimed {
+		claimed[n] = true
+	}
+	unprovedBase := map[string]bool{}
+	for _, n := range base.Unproved {
+		unprovedBase[n] = true
+	}
+	baseFns := map[string]bool{}
+	for _, f := range base.Functions {
+		baseFns[f] = true
+	}
+	cur := map[string]*Oblig{}
+	for _, o := range obs {
+		cur[o.Name] = o
+	}
+	var viol []violation
+	var undecided []string
+	discharged, nclaimedPresent := 0, 0
+	byBackend := map[string]int{}
+	solverMs := 0
+	// 1. claimed obligations
+	missingByFn := map[string][]string{} // fn+famkind -> claimed names that disappeared
+	for _, n := range base.Claimed {
+		o, ok := cur[n]
+		if !ok {
+			fn := fnOfName(n)
+			if !fnSeen[fn] && baseFns[fn] {
+				undecided = append(undecided, "function gone: "+n)
+			} else {
+				missingByFn[fn+"|"+famKind(n)] = append(missingByFn[fn+"|"+famKind(n)], n)
+			}
+			continue
+		}
+		nclaimedPresent++
+		solverMs += o.Ms
+		if o.Verdict == "unsat" {
+			discharged++
+			byBackend[o.Solver]++
+			continue
+		}
+		viol = append(viol, violation{ob: o, reason: "claimed obligation no longer discharges (" + o.Verdict + ")"})
+	}
+	// 2. obligations that are new with respect to the baseline
+	newFail := 0
+	for _, o := range obs {
+		if claimed[o.Name] || unprovedBase[o.Name] {
+			continue
+		}
+		if o.Verdict == "unsat" || o.Verdict == "dropped" {
+			if haveBase {
+				discharged++ // new and proved: counted, fine
+				nclaimedPresent++
+				byBackend[o.Solver]++
+			}
+			continue
+		}
+		if !haveBase {
+			continue
+		}
+		newFail++
+		key := o.Fn + "|" + famKind(o.Name)
+		if len(missingByFn[key]) > 0 {
+			// an obligation of the same kind in the same function was proved on the pinned tree and its
+			// edited successor fails now
+			old := missingByFn[key][0]
+			missingByFn[key] = missingByFn[key][1:]
+			viol = append(viol, violation{ob: o, reason: "edited obligation fails (was " + old + ", " + o.Verdict + ")"})
+			continue
+		}
+		if o.Verdict == "sat" && r.fullyProvedAtBase(o, base) {
+			viol = append(viol, violation{ob: o, reason: "new obligation refuted in a function whose obligations of this kind were all proved on the pinned tree"})
+			continue
+		}
+		undecided = append(undecided, "new unproved obligation: "+o.Name+" ("+o.Verdict+")")
+	}
+	// 3. known findings
+	knownPrinted := map[string]bool{}
+	var realViol []violation
+	for _, v := range viol {
+		if f, ok := known[v.ob.Name]; ok {
+			if !knownPrinted[f.ID] {
+				fmt.Printf("KNOWN-FINDING: property=%s %s %s\n", r.prop, f.ID, f.What)
+				knownPrinted[f.ID] = true
+			}
+			continue
+		}
+		realViol = append(realViol, v)
+	}
+	// findings listed for obligations that are still failing but were never claimed
+	for n, f := range known {
+		if o, ok := cur[n]; ok && o.Verdict != "unsat" && !knownPrinted[f.ID] {
+			fmt.Printf("KNOWN-FINDING: property=%s %s %s\n", r.prop, f.ID, f.What)
+			knownPrinted[f.ID] = true
+		}
+	}
+	// 4. report
+	os.MkdirAll(filepath.Join(r.root, "replays"), 0o755)
+	for i := range realViol {
+		v := &realViol[i]
+		enc := encOf[v.ob]
+		if enc != nil && (v.ob.Verdict == "sat" || v.ob.Verdict == "unknown") {
+			v.model = enc.modelFor(v.ob, 8000)
+		}
+		v.replay = r.writeReplay(v, i)
+		suffix := ""
+		if !v.confirmed {
+			suffix = " no-failing-input-found"
+		}
+		fmt.Printf("VIOLATION property=%s replay=%s obligation=%q reason=%q%s\n", r.prop, v.replay, v.ob.Name, v.reason, suffix)
+	}
+	for _, u := range undecided {
+		fmt.Printf("UNDECIDED property=%s %s\n", r.prop, u)
+	}
+	vac := r.vacuity()
+	if !noEvidence {
+		r.writeEvidence(evidenceOut, obs, nclaimedPresent, discharged, byBackend, solverMs, len(realViol), undecided, base, vac, knownPrinted)
+	}
+	fmt.Printf("property=%s tier=%s obligations=%d discharged=%d violations=%d undecided=%d wall=%.1fs\n", r.prop, r.tier, nclaimedPresent, discharged, len(realViol), len(undecided), time.Since(r.t0).Seconds())
+	if len(realViol) > 0 {
+		return 1
+	}
+	return 0
+}
+
+// fullyProvedAtBase: on the pinned tree the function had no unproved obligation of this family.
+func (r *checkRun) fullyProvedAtBase(o *Oblig, base Baseline) bool {
+	pfx := o.Fn + "#" + o.Family + ":"
+	any := false
+	for _, n := range base.Unproved {
+		if strings.HasPrefix(n, pfx) {
+			return false
+		}
+	}
+	for _, n := range base.Claimed {
+		if strings.HasPrefix(n, pfx) {
+			any = true
+			break
+		}
+	}
+	return any
+}
+
+type vacReport struct {
+	FunctionsChecked int      `json:"functions_with_reachable_exit"`
+	Unreachable      []string `json:"returns_unreachable_under_assumptions"`
+}
+
+func (r *checkRun) vacuity() vacReport {
+	var v vacReport
+	for _, fr := range r.res {
+		if fr.enc == nil {
+			continue
+		}
+		any := false
+		for _, o := range fr.enc.obs {
+			if o.Family != "VAC" {
+				continue
+			}
+			if o.Verdict == "sat" {
+				any = true
+			} else {
+				v.Unreachable = append(v.Unreachable, o.Name)
+			}
+		}
+		if any {
+			v.FunctionsChecked++
+		}
+	}
+	return v
+}
+
+func (r *checkRun) writeReplay(v *violation, i int) string {
+	name := fmt.Sprintf("%s_%d.json", r.prop, i)
+	p := filepath.Join(r.root, "replays", name)
+	rec := map[string]interface{}{
+		"property":   r.prop,
+		"obligation": v.ob.Name,
+		"family":     v.ob.Family,
+		"function":   v.ob.Fn,
+		"reason":     v.reason,
+		"verdict":    v.ob.Verdict,
+		"solver":     v.ob.Solver,
+		"source":     r.w.prog.Fset.Position(v.ob.pos).String(),
+		"condition_that_must_hold": v.ob.cond,
+		"solver_output": v.model,
+		"replayed_on_real_code": v.confirmed,
+	}
+	b, _ := json.MarshalIndent(rec, "", " ")
+	os.WriteFile(p, b, 0o644)
+	return p
+}
+
+func writeEvidenceFailure(root, prop, tier string, seed int, msg string, wall float64, out string) {
+	ev := map[string]interface{}{
+		"property_id": prop, "tier": tier, "seed": seed, "level": "other",
+		"coverage": map[string]interface{}{"explanation": "the repository did not load/type-check; nothing was decided: " + msg},
+		"wall_s":   wall, "violations": 0,
+	}
+	if out == "" {
+		out = filepath.Join(root, "evidence", prop+".json")
+	}
+	os.MkdirAll(filepath.Dir(out), 0o755)
+	b, _ := json.MarshalIndent(ev, "", " ")
+	os.WriteFile(out, b, 0o644)
+}
+
+func (r *checkRun) writeEvidence(out string, obs []*Oblig, nob, discharged int, byBackend map[string]int, solverMs, nviol int, undecided []string, base Baseline, vac vacReport, known map[string]bool) {
+	if out == "" {
+		out = filepath.Join(r.root, "evidence", r.prop+".json")
+	}
+	os.MkdirAll(filepath.Dir(out), 0o755)
+	fnSet := map[string]bool{}
+	contractFns := map[string]bool{}
+	var samples []obRec
+	unproved := 0
+	var unprovedNames []string
+	synt := 0
+	for _, o := range obs {
+		fnSet[o.Fn] = true
+		if o.Solver == "syntactic" {
+			synt++
+		}
+		if o.Verdict != "unsat" && o.Verdict != "dropped" {
+			unproved++
+			if len(unprovedNames) < 400 {
+				unprovedNames = append(unprovedNames, o.Name+" ["+o.Verdict+"]")
+			}
+		}
+	}
+	// samples: a few solver-discharged obligations, deterministic choice
+	for _, o := range obs {
+		if o.Verdict == "unsat" && o.Solver != "syntactic" && len(samples) < 8 && (hash(o.Name)+uint32(r.seed))%7 == 0 {
+			samples = append(samples, obRec{Name: o.Name, Verdict: o.Verdict, Solver: o.Solver, Ms: o.Ms})
+		}
+	}
+	if len(samples) == 0 {
+		for _, o := range obs {
+			if len(samples) < 4 {
+				samples = append(samples, obRec{Name: o.Name, Verdict: o.Verdict, Solver: o.Solver, Ms: o.Ms})
+			}
+		}
+	}
+	for _, fr := range r.res {
+		if fr.enc != nil && fr.enc.topFrame != nil && fr.enc.topFrame.contract != nil && fnSet[shortName(fr.fn)] {
+			contractFns[shortName(fr.fn)] = true
+		}
+	}
+	trusted := map[string]bool{}
+	var unsup []string
+	for _, fr := range r.res {
+		if fr.enc == nil {
+			continue
+		}
+		for k := range fr.enc.usedTrusted {
+			trusted[k] = true
+		}
+		for _, u := range fr.enc.unsupported {
+			unsup = append(unsup, shortName(fr.fn)+": "+u)
+		}
+	}
+	var tb []string
+	tb = append(tb, "Go type checker and golang.org/x/tools/go/ssa v0.29.0 (SSA of the real packages)", "govc VC generator (this repository)", "z3 5.1.0 / z3 4.8.12 / cvc5 1.0.3",
+		"integers are mathematical (no overflow obligations)", "string contents are uninterpreted", "dependency code (hcl, hclsyntax, cty, std) does not write through its arguments and does not panic outside the inlined bodies / trusted preconditions",
+		"obligations are proved assert-then-assume within a function (a later obligation may rely on an earlier one)")
+	var tk []string
+	for k := range trusted {
+		tk = append(tk, k)
+	}
+	sort.Strings(tk)
+	for _, k := range tk {
+		tb = append(tb, "trusted: "+k)
+	}
+	var ctr []string
+	for k := range contractFns {
+		ctr = append(ctr, k)
+	}
+	sort.Strings(ctr)
+	var knownIDs []string
+	for k := range known {
+		knownIDs = append(knownIDs, k)
+	}
+	sort.Strings(knownIDs)
+	sort.Strings(unsup)
+	if len(unsup) > 50 {
+		unsup = unsup[:50]
+	}
+	cov := map[string]interface{}{
+		"obligations":  nob,
+		"discharged":   discharged,
+		"checker_cmd":  fmt.Sprintf("bin/govc check -p %s -tier %s (per obligation: z3-new 5.1.0, then z3 4.8.12 and cvc5 1.0.3 on anything not decided)", r.prop, r.tier),
+		"trusted_base": tb,
+		"functions_with_obligations": len(fnSet),
+		"functions_under_explicit_contract": ctr,
+		"generated_total": len(obs),
+		"syntactic_discharges": synt,
+		"by_backend": byBackend,
+		"solver_time_s": float64(solverMs) / 1000.0,
+		"unproved_not_claimed": unproved - nviol,
+		"unproved_not_claimed_names": unprovedNames,
+		"undecided": undecided,
+		"vacuity": vac,
+		"known_findings": knownIDs,
+		"baseline_claimed": len(base.Claimed),
+		"out_of_subset_notes": unsup,
+		"samples": samples,
+		"exhaustive": false,
+	}
+	ev := map[string]interface{}{
+		"property_id": r.prop, "tier": r.tier, "seed": r.seed, "level": "proof",
+		"coverage": cov,
+		"assumptions": tb,
+		"wall_s":      time.Since(r.t0).Seconds(),
+		"violations":  nviol,
+	}
+	b, _ := json.MarshalIndent(ev, "", " ")
+	os.WriteFile(out, b, 0o644)
+}
+
+var _ = ssa.Function{}
